@@ -40,6 +40,8 @@ def run(sess):
         c09.run_ob = orig
     for ob in sess.obligations[n0:]:
         relabel(ob, 'C09')
+    sweep(sess)
+    str_at(sess)
 
 
 def relabel(ob, tag):
@@ -66,6 +68,10 @@ META = {
 
 
 def replay_witness(w, rp):
+    if w.get('origin') == 'C07sweep':
+        return replay_builtin(w, rp)
+    if w.get('origin') == 'C07str':
+        return replay_str_at(w, rp)
     mod = {'C10': c10, 'C01': c01, 'C15': c15, 'C09': c09}.get(w.get('origin'))
     if mod is None:
         return {'reproduced': False, 'role': 'panic', 'detail': 'unknown origin'}
@@ -75,3 +81,179 @@ def replay_witness(w, rp):
     rep['reproduced'] = bool(rep.get('reproduced')) and ('panic' in det or 'abort' in det)
     rep['role'] = 'panic: ' + str(w.get('panic') or w.get('what'))[:60] + ' / ' + rep.get('role', '')
     return rep
+
+
+# ----------------------------------------------------------------------------- builtin prologue sweep
+def int_params(f):
+    """symbolic models for the integer-typed parameters of a generated builtin body; everything else is opaque"""
+    import re as _re
+    import z3
+    from .common import Enum, Opaque, in_range, I32_MIN, I32_MAX
+    args, conds, ints = [], [], []
+    for i, (n, t) in enumerate(f.args):
+        t = t.strip()
+        v = z3.Int(f'p{i}')
+        if t in ('i32', 'u32', 'i64', 'u64', 'usize', 'isize'):
+            from .common import INT_TY
+            w, sg = INT_TY[t]
+            args.append(v)
+            conds.append(in_range(v, w, sg))
+            ints.append((i, t, v))
+        elif t == 'NoneOr<i32>':
+            args.append(Enum('Other', [v], 'NoneOr'))
+            conds.append(in_range(v, 32, True))
+            ints.append((i, t, v))
+        elif _re.fullmatch(r'(std::option::)?Option<i32>', t):
+            args.append(Enum('Some', [v], 'Option'))
+            conds.append(in_range(v, 32, True))
+            ints.append((i, t, v))
+        else:
+            args.append(Opaque('arg ' + t[:40]))
+    return args, conds, ints
+
+
+def sweep(sess):
+    """C07.builtin_prologue: in every #[starlark_module] function body that takes integer parameters, no arithmetic panic
+    edge is feasible before control flow depends on a value the executor does not model (bug-hunting beyond that point)"""
+    import time as _time
+    import z3
+    from .common import Obligation, Path, Unsupported, model_int
+    from mirsym import exec as mexec
+    mexec.ENUMS['NoneOr'] = ['None', 'Other']
+    fns = [m for m in sess.db.fns if '__starlark_invoke_impl' in m.header and '{closure' not in m.header]
+    t1 = _time.time()
+    ob = Obligation('C07.no_panic.builtin_prologues', 'no arithmetic panic edge (overflow, division by zero, negation overflow) is feasible in the integer prologue of any builtin / method body generated by #[starlark_module]',
+                    'every value of every integer-typed parameter (i32, NoneOr<i32>, Option<i32>, u32, i64, u64, usize); other parameters opaque; each path is followed until control flow depends on an unmodelled value')
+    nbodies = 0
+    cuts = 0
+    for m in fns:
+        ex = sess.executor(True)
+        ex.havoc = True
+        ex.step_bound = 200
+        f = ex.get_fn(m)
+        args, conds, ints = int_params(f)
+        if not ints:
+            continue
+        nbodies += 1
+        try:
+            ex.run(f, args, Path(conds))
+        except Exception as e:           # a body the executor cannot even start on is outside the sweep
+            sess.notes.add('builtin prologue sweep: bodies that could not be executed at all are skipped (counted in evidence)')
+            continue
+        ob.paths += ex.npaths
+        cuts += ex.cuts
+        for pn in ex.panics:
+            sess.panic_edges_checked += 1
+            r, model = sess.decide(ob, pn.conds)
+            if r == 'sat':
+                ob.fail({'kind': 'builtin', 'panic': pn.msg, 'sig': [t for _, t in f.args], 'ints': {str(i): model_int(model, v) for i, t, v in ints},
+                         'in': m.header[:200], 'origin': 'C07sweep'})
+            elif r == 'unknown':
+                ob.inconclusive('solver unknown on a panic edge of ' + m.header[:80])
+        sess.encoded.update(ex.encoded)
+    ob.designated = {'bodies with integer parameters executed': nbodies >= 10}
+    ob.sample = {'bodies': nbodies, 'paths_cut_at_unmodelled_values': cuts}
+    ob.twin = 'sat'
+    ob.wall_s = _time.time() - t1
+    sess.add(ob)
+    return ob
+
+
+def replay_builtin(w, rp):
+    """the solver's integer witness is placed into calls of every method of the receiver's type whose parameter shape fits;
+    a native panic reproduces the finding"""
+    sig = w['sig']
+    ints = {int(k): v for k, v in w['ints'].items()}
+    recv = None
+    if sig and ('&str' == sig[0] or 'StarlarkStr' in sig[0]):
+        recv, dirx = '"a b c"', 'dir("")'
+    elif sig and 'ListRef' in sig[0] or (sig and 'ListData' in sig[0]):
+        recv, dirx = '[1, 2, 3]', 'dir([])'
+    if recv is None:
+        return {'reproduced': False, 'role': 'builtin prologue panic', 'detail': f'no native replay for a builtin with signature {sig}'}
+    params = []
+    for i, t in enumerate(sig[1:], start=1):
+        if i in ints:
+            params.append(str(ints[i]))
+        elif 'Heap' in t or 'Evaluator' in t:
+            continue
+        elif 'str' in t or 'String' in t:
+            params.append('" "')
+        else:
+            params.append('1')
+    names = rp.run([{'kind': 'eval', 'program': dirx}], 'dev')[0].get('ok', '[]')
+    import ast
+    try:
+        methods = ast.literal_eval(names)
+    except Exception:
+        methods = []
+    cases = [{'kind': 'eval', 'program': f'{recv}.{m}({", ".join(params)})'} for m in methods]
+    res = rp.run(cases, 'dev')
+    hits = [(c['program'], r.get('panic') or r.get('abort')) for c, r in zip(cases, res) if 'panic' in r or 'abort' in r]
+    return {'reproduced': bool(hits), 'role': 'builtin prologue panic: ' + '; '.join(sorted({h[0].split('(')[0].split('.')[-1] for h in hits})),
+            'detail': f'panic in {hits[:3]}' if hits else f'no method of {recv} panics with arguments ({", ".join(params)})', 'cases': cases[:3]}
+
+
+def str_at(sess):
+    """C07.no_panic.str_index: `s[i]` (StarlarkStr::at) for every i32 index; string length and character lookup are arbitrary"""
+    import time as _time
+    import z3
+    from .common import Obligation, Path, Enum, Struct, Ref, Opaque, Unsupported, OK, SOME, NONE, fork2, ret, model_int, in_range
+    t1 = _time.time()
+    ob = Obligation('C07.no_panic.str_index', '"..."[i] never panics: index arithmetic of StarlarkStr::at for every i32 index', 'every i32 index; string length (in chars and bytes) arbitrary; character lookup arbitrary')
+    try:
+        i = z3.Int('index')
+        nchars, nbytes = z3.Int('len_chars'), z3.Int('len_bytes')
+
+        def c_unpack_param(ex, st, args, path, callee):
+            return ret(OK(args[0].fields[0]), path)
+
+        def c_fs_len(ex, st, args, path, callee):
+            return ret(nchars, path)
+
+        def c_fs_at(ex, st, args, path, callee):
+            idx = args[1]
+            while isinstance(idx, Struct):
+                idx = idx.fields[0]
+            return fork2(ex, path, idx < nchars, SOME(Opaque('char')), NONE())
+
+        def c_str_len(ex, st, args, path, callee):
+            return ret(nbytes, path)
+
+        def c_alloc(ex, st, args, path, callee):
+            return ret(Opaque('value'), path)
+        extra = [('i32::unpack_param(Value) = the int index (receiver plumbing)', r'^<i32 as UnpackValue<.*>>::unpack_param$', c_unpack_param),
+                 ('fast_string::len = arbitrary char count (stub)', r'fast_string::len$', c_fs_len),
+                 ('fast_string::at(s, i) = Some iff i < char count (stub)', r'fast_string::at$', c_fs_at),
+                 ('str::len = arbitrary byte count >= char count (stub)', r'^(core::)?str::<impl str>::len$|StarlarkStr::len$', c_str_len),
+                 ('Heap::alloc(char) (stub)', r'Heap::<.*>::alloc::<char>$', c_alloc),
+                 ('<StarlarkStr as Deref>::deref = the string itself (stub)', r'^<StarlarkStr as (std::ops::)?Deref>::deref$', lambda ex, st, args, path, callee: ret(args[0], path)),
+                 ('str::as_bytes = a byte slice of the string length (stub)', r'str::<impl str>::as_bytes$', lambda ex, st, args, path, callee: ret(__import__('mirsym.exec', fromlist=['Slice']).Slice(nbytes, None, 'bytes'), path))]
+        ex = sess.executor(True, extra=extra)
+        ex.havoc = True
+        fn = ex.get_fn(sess.db.find_in_file('str_type.rs', 'at', r'_1: &StarlarkStr'))
+        pre = [in_range(i, 32, True), nchars >= 0, nchars <= nbytes, nbytes < (1 << 32)]
+        outs = ex.run(fn, [Opaque('self'), Enum('Int', [i], 'Value'), Opaque('heap')], Path(pre))
+        ob.paths = len(outs) + ex.cuts
+        for pn in ex.panics:
+            sess.panic_edges_checked += 1
+            r, model = sess.decide(ob, pn.conds)
+            if r == 'sat':
+                ob.fail({'kind': 'str_index', 'panic': pn.msg, 'index': model_int(model, i), 'origin': 'C07str'})
+            elif r == 'unknown':
+                ob.inconclusive('solver unknown on a panic edge')
+        ob.twin = 'sat'
+        ob.sample = {'paths': ob.paths, 'cut_at_unmodelled_values': ex.cuts}
+        sess.absorb(ex)
+    except (Unsupported, LookupError) as e:
+        ob.inconclusive(f'unsupported: {e}')
+    ob.wall_s = _time.time() - t1
+    sess.add(ob)
+
+
+def replay_str_at(w, rp):
+    i = w['index']
+    cases = [{'kind': 'eval', 'program': f'"abc"[{i}]'}, {'kind': 'eval', 'program': f'x[i]', 'vars': {'x': {'str': 'h\u00e9llo'}, 'i': {'int': str(i)}}}]
+    res = rp.run(cases, 'dev')
+    hit = [r for r in res if 'panic' in r or 'abort' in r]
+    return {'reproduced': bool(hit), 'role': 'string index panic', 'detail': f'"abc"[{i}]: {str(res)[:300]}', 'cases': cases}
